@@ -313,7 +313,8 @@ class ProgGen:
         if self.f.get("ref_returns", True) and t.bool(0.2, "ref-return"):
             self.add_ref_return(c)
         for _ in range(t.small(2, "nstatic", p=0.4)):
-            f = PFunc("static", t.pick(STATN, "sname"), self.gen_ret(allow_void=False, cls=c), self.args(2, cls=c))
+            f = PFunc("static", t.pick(STATN, "sname"),
+                      self.gen_ret(allow_void=bool(self.f.get("static_void", True)), cls=c), self.args(2, cls=c))
             if fresh_sig(f):
                 c.statics.append(f)
         if self.f.get("props", True):
@@ -458,6 +459,10 @@ class ProgGen:
                 args = [PArg(a.ty, a.name, a.default) for a in sigs[sg]]
                 ret = t.pick(rets if name != "Scale" else rets[:3], "ov-ret")
                 dest.append(PFunc(kind, name, ret, args, const=(kind == "method" and t.bool(0.5, "ov-const"))))
+        if self.f.get("static_void", True):
+            c.statics.append(PFunc("static", "Reset", PType("prim", "void"), [PArg(I, "n", ("3", 3))]))
+            c.statics.append(PFunc("static", "Both", ("pair", t.pick(rets[:3], "ov-p1"), t.pick(rets, "ov-p2")),
+                                   [PArg(D, "x")]))
         fname = self.fresh(["combine", "blend", "merge"])
         for sg in t.shuffle(list(range(len(sigs))), "ov-fsigs")[:3]:
             self.p.functions.append((ns, PFunc("func", fname, t.pick(rets[:3], "ov-fret"),
